@@ -142,6 +142,9 @@ func (w *WebsocketConnection) handlePing() {
 
 func (w *WebsocketConnection) closeWithError(err error, reason string) {
 	logging.Log().Debug(w.remoteSki, reason, err)
+	// release the pumps and the socket first, marking the connection closed beforehand
+	// would turn close() into a no-op
+	w.close()
 	w.setConnClosedError(err)
 	w.dataProcessing.ReportConnectionError(err)
 }
